@@ -647,10 +647,6 @@ def engine(ctx, which):
     return dist
 
 
-SIG_TRUNC_LEN = "twr-fsr-payload-length-truncated-to-32-bits"
-SIG_TRUNC_ENUM = "twr-enum-argument-truncated-to-8-bits"
-
-
 def run_twm(ctx):
     """message codec of the threaded writer (coq/TwrMsg.v tm_encode / tm_decode, extracted) vs the real producers and writer thread:
     message bytes (header padding masked: the compiler leaves it uninitialised) and every argument the writer thread hands to jls_wr_*"""
@@ -667,11 +663,6 @@ def run_twm(ctx):
     for lab, k in labs.items():
         ctx.count(("twm", lab), nontrivial=True, sample={"kind": "twr message codec case class", "class": lab, "cases": k})
     ctx.extra["twm"] = {k: v for k, v in st.items() if k != "labels"}
-    # the two truncation classes are defects of the C that the model reproduces (C06_msg_*_refuted): recorded known findings
-    if labs.get("trunc_fsr_len"):
-        ctx.violation("twm_trunc_len.txt", "fsr 40 1 0 20000000 .   (TWM probe line: 2^29 samples of 64 bits)\n", "jls_twr_fsr casts the payload length to uint32: a call with count*bits/8 >= 2^32 is queued with an empty payload", sig=SIG_TRUNC_LEN)
-    if labs.get("trunc_enum_stype"):
-        ctx.violation("twm_trunc_enum.txt", "ann 1 0 0 1 0 102 2 6162   (TWM probe line: storage_type 258)\n", "storage_type / annotation_type are tested as int but stored in uint8: 258 is queued as binary and arrives as STRING", sig=SIG_TRUNC_ENUM)
 
 
 def run(ctx):
